@@ -670,8 +670,8 @@ def run(ctx):
         "unbuffered subscriptions are read eagerly, buffered ones under schedule control",
         "Go map iteration order is not controlled: every observed run is validated, runs are repeated; an order-dependent "
         "violation can be missed in one invocation but never falsely reported",
-        "a pub-sub loop that does not take commands for 4 s while a goroutine sits in a channel send inside state.send is "
-        "reported as blocked on a buffered subscriber; an indexer that has not indexed a block 4 s after its events were "
+        "a pub-sub loop that does not take commands for 15 s while a goroutine sits in a channel send inside state.send is "
+        "reported as blocked on a buffered subscriber; an indexer that has not indexed a block 15 s after its events were "
         "published is reported as not indexing it",
         "EventsOf(item) for the search oracle = attributes flagged index:true plus tx.height/tx.hash (block.height)",
         "psql sink, the WebSocket layer of rpc/core/events.go and calls racing with Server.Stop are not covered",
